@@ -485,8 +485,8 @@ def _install():
     sm._process_internal_events_without_default_matchers = w_proc
 
 
-class _Runaway(Exception):
-    pass
+class _Runaway(BaseException):
+    """raised by the step guard; BaseException so that the interpreter's own `except Exception` cannot swallow it"""
 
 
 def worker_init():
